@@ -31,7 +31,7 @@ Holds(c, h, k) ==
     [] c = "NoFnOnInFault"  -> NoFnOnInFault(h, k)
     [] c = "BadReqIsClient" -> BadReqIsClient(h, k)
     [] c = "StatusTable"    -> StatusTable(h, k)
-    [] c = "NoEscape"       -> NoEscape(h)
+    [] c = "NoEscape"       -> NoEscapeK(h, k)
     [] c = "FuzzOutcome"    -> FuzzOutcome(h, k)
     [] c = "HeadersOk"      -> HeadersOk(h, k)
     [] c = "ChunksBytes"    -> ChunksBytes(h, k)
